@@ -279,6 +279,14 @@ func c16ExtInInfo(src, dest c16Addr, fee *big.Int) string {
 	return "10" + src.bits + dest.bits + c16GramsBits(fee)
 }
 
+// c16ExtInInfoPadded: the same record with the import fee stored NON-minimally — the VarUInteger 16 length is pad bytes
+// larger than needed and the value carries pad leading zero bytes. Decoders accept it (the value is the same); its cell
+// is not the canonical encoding, so a normalised hash must not be taken from it.
+func c16ExtInInfoPadded(src, dest c16Addr, fee *big.Int, pad int) string {
+	n := (fee.BitLen()+7)/8 + pad
+	return "10" + src.bits + dest.bits + vhU64Bits(uint64(n), 4) + vhUintBits(fee, 8*n)
+}
+
 func c16Canonical(dest c16Addr, body c16Body) *boc.Cell {
 	c, err := vhCellFromBits("10"+"00"+dest.bits+"0000"+"0"+"1", body.cell())
 	if err != nil {
@@ -723,7 +731,7 @@ func TestVerifStandin_C16_HashesSynthetic(t *testing.T) {
 			cause = "rc_hash_true_strips_anycast_and_mutates_receiver"
 		}
 		var first *Bits256
-		for v := 0; v < 12; v++ {
+		for v := 0; v < 24; v++ {
 			src := c16AddrNone()
 			if v%2 == 1 {
 				src = c16AddrExtern(rng, []int{0, 1, 9, 64, 200}[rng.Intn(5)])
@@ -740,10 +748,21 @@ func TestVerifStandin_C16_HashesSynthetic(t *testing.T) {
 				init, initRef = &in, true
 			}
 			bodyRef := v%4 >= 2
-			cell, err := c16Message(c16ExtInInfo(src, dest, fee), init, initRef, body, bodyRef)
+			info := c16ExtInInfo(src, dest, fee)
+			if v >= 12 {
+				// second half: the fee is stored with a non-minimal length (zero fee in v = 12, 18: together with no
+				// source, no init and a body reference everything but the ENCODING already looks normalised)
+				if v%6 == 0 {
+					fee = big.NewInt(0)
+				}
+				if room := 15 - (fee.BitLen()+7)/8; room > 0 {
+					info = c16ExtInInfoPadded(src, dest, fee, 1+rng.Intn(room))
+				}
+			}
+			cell, err := c16Message(info, init, initRef, body, bodyRef)
 			if err != nil {
 				// inline does not fit: use the reference forms
-				if cell, err = c16Message(c16ExtInInfo(src, dest, fee), init, true, body, true); err != nil {
+				if cell, err = c16Message(info, init, true, body, true); err != nil {
 					t.Fatalf("cannot build message: %v", err)
 				}
 			}
